@@ -18,6 +18,25 @@ CHECKS = {
             'as invariants, and every case is executed in the real code in several spellings; TLC decides each recorded '
             'outcome (verdict and exactly-typed image) against the three-valued semantics. Randomised deeper traces extend '
             'past the bound.', 'section 7 C01'),
+    'C03': ('TLC-enumerated (type, value) cases replayed through try_convert / collect_errors / convert separately, for the '
+            'case and every sub-case; recorded pass outcomes validated by the TLC trace spec (clause PassesFails)',
+            'Every case of the exhaustive grammar universe (and, for rejected ones, every structural sub-case) is run through '
+            'the two passes of the documented extension interface separately and through convert(); TLC checks '
+            'fast-interrupts <=> diagnostic-tree, no internal RuntimeError, ConvertError carries a tree, neither pass raises.',
+            'section 7 C03'),
+    'C05': ('TLC-enumerated cases: from_data -> into_data -> from_data -> into_data executed in the real code; TLC decides '
+            'IsData, SerOK (relational serialisation semantics), x2 = x, d2 = d up to set order',
+            'Exhaustive within the grammar bound; the serialised form is checked against the relational semantics SerOK of '
+            'PaneSem, the re-parse against the image, the re-serialisation up to set ordering, only for values whose image '
+            'the semantics fixes (verdict A).', 'section 7 C05'),
+    'C06': ('TLC-enumerated cases: convert(x, T) on the converted value, on an equal natively rebuilt object, and '
+            'convert(convert(v)); TLC compares with the image of the semantics under Python equality',
+            'Exhaustive within the grammar bound; x ranges over images produced by conversion and over equal objects rebuilt '
+            'with ordinary Python constructors (Fraction, Decimal, date, set, deque, enum members, dataclass instances ...).',
+            'section 7 C06'),
+    'C09': ('TLC-enumerated cases; deep identity+content snapshot of the argument before/after from_data; event validated by '
+            'the TLC trace spec', 'Exhaustive within the grammar bound, both verdicts; the snapshot records the identity and '
+            'contents of every container reachable from the argument.', 'section 7 C09'),
 }
 
 NOT_YET = 'check not built yet (work in progress; see DESIGN.md section 12 build order)'
